@@ -186,12 +186,12 @@ func c18(c *Ctx) {
 			}
 			uses++
 			if c.afterNilSafeReceive(f, cs.Instr, stateFld, nilSafe) {
-				R.Pass("R18.1", c.name(f)+"|s.state."+sc.Name(), P.Pos(cs.Pos()), "reached only by receiving from a nil-safe getter's channel (a nil channel when s.state is nil never delivers)")
+				R.Pass("R18.1", c.name(f)+"|s.state."+engine.ShortName(sc), P.Pos(cs.Pos()), "reached only by receiving from a nil-safe getter's channel (a nil channel when s.state is nil never delivers)")
 				continue
 			}
 			ok2, why := guardedFn(f, cs.Instr, 0, map[*ssa.Function]bool{})
-			R.Check(ok2, "R18.1", c.name(f)+"|s.state."+sc.Name(), P.Pos(cs.Pos()), "use of the authenticated state is guarded by s.state != nil",
-				"s.state."+sc.Name()+" is reachable without a dominating s.state != nil test ("+why+"): before LOGIN this dereferences a nil state (crash) or acts without authentication")
+			R.Check(ok2, "R18.1", c.name(f)+"|s.state."+engine.ShortName(sc), P.Pos(cs.Pos()), "use of the authenticated state is guarded by s.state != nil",
+				"s.state."+engine.ShortName(sc)+" is reachable without a dominating s.state != nil test ("+why+"): before LOGIN this dereferences a nil state (crash) or acts without authentication")
 		}
 	}
 	R.Min("R18.1", "method calls on Session.state", uses, 15)
@@ -213,11 +213,11 @@ func c18(c *Ctx) {
 				switch {
 				case fv == stateFld && fv != nil:
 					w++
-					okW := topFn(f).Name() == "handleLogin"
+					okW := c.isAnchor(topFn(f), "internal/session.(*Session).handleLogin")
 					fromGetState, onNil := false, false
 					if ex, isEx := st.Val.(*ssa.Extract); isEx && ex.Index == 0 {
 						if call, isCall := ex.Tuple.(*ssa.Call); isCall {
-							if sc := call.Call.StaticCallee(); sc != nil && sc.Name() == "GetState" {
+							if sc := call.Call.StaticCallee(); sc != nil && engine.ShortName(sc) == "GetState" {
 								fromGetState = true
 								for _, r := range *call.Referrers() {
 									if e1, ok := r.(*ssa.Extract); ok && e1.Index == 1 {
@@ -244,9 +244,9 @@ func c18(c *Ctx) {
 					R.Check(okW && fromGetState && onNil, "R18.2", c.name(f)+"|store Session.state", P.Pos(st.Pos()), "Session.state is set from Backend.GetState's result on its nil-error edge in handleLogin",
 						"Session.state is assigned outside handleLogin / not from a successful Backend.GetState: a session could become authenticated without valid credentials")
 				case fv != nil && fv.Name() == "user" && engine.IsNamed(fa.X.Type(), "internal/state", "State"):
-					R.Check(topFn(f).Name() == "NewState", "R18.2", c.name(f)+"|store State.user", P.Pos(st.Pos()), "State.user set by NewState", "State.user is re-assigned after construction: a state could reach another user's data")
+					R.Check(c.isAnchor(topFn(f), "internal/state.NewState"), "R18.2", c.name(f)+"|store State.user", P.Pos(st.Pos()), "State.user set by NewState", "State.user is re-assigned after construction: a state could reach another user's data")
 				case fv != nil && fv.Name() == "u" && engine.IsNamed(fa.X.Type(), "internal/backend", "StateUserInterfaceImpl"):
-					R.Check(topFn(f).Name() == "newStateUserInterfaceImpl", "R18.2", c.name(f)+"|store StateUserInterfaceImpl.u", P.Pos(st.Pos()), "user binding set by the constructor", "StateUserInterfaceImpl.u is re-assigned after construction")
+					R.Check(c.isAnchor(topFn(f), "internal/backend.newStateUserInterfaceImpl"), "R18.2", c.name(f)+"|store StateUserInterfaceImpl.u", P.Pos(st.Pos()), "user binding set by the constructor", "StateUserInterfaceImpl.u is re-assigned after construction")
 				}
 			}
 		}
@@ -263,7 +263,7 @@ func c18(c *Ctx) {
 		}
 		cut := map[ssa.Instruction]bool{}
 		for _, cs := range engine.Calls(f) {
-			if sc := cs.Common().StaticCallee(); sc != nil && sc.Name() == "Close" && engine.RecvNamed(sc) != nil && engine.RecvNamed(sc).Obj().Name() == "Mailbox" {
+			if sc := cs.Common().StaticCallee(); sc != nil && engine.ShortName(sc) == "Close" && engine.RecvNamed(sc) != nil && engine.RecvNamed(sc).Obj().Name() == "Mailbox" {
 				cut[cs.Instr] = true
 			}
 		}
@@ -332,11 +332,11 @@ func c18jail(c *Ctx) {
 		}
 		if sc := cc.StaticCallee(); sc != nil {
 			switch {
-			case sc.Name() == "Wait" && engine.RecvNamed(sc) != nil && engine.RecvNamed(sc).Obj().Name() == "WaitGroup":
+			case engine.ShortName(sc) == "Wait" && engine.RecvNamed(sc) != nil && engine.RecvNamed(sc).Obj().Name() == "WaitGroup":
 				wait = l
-			case sc.Name() == "Add" && engine.RecvNamed(sc) != nil && engine.RecvNamed(sc).Obj().Name() == "WaitGroup":
+			case engine.ShortName(sc) == "Add" && engine.RecvNamed(sc) != nil && engine.RecvNamed(sc).Obj().Name() == "WaitGroup":
 				wgAdd = l
-			case sc.Name() == "AfterFunc":
+			case engine.ShortName(sc) == "AfterFunc":
 				afterFunc = l
 			}
 		}
@@ -439,7 +439,7 @@ func c18jail(c *Ctx) {
 				continue
 			}
 			call, ok := cnt.(*ssa.Call)
-			if !ok || call.Call.StaticCallee() == nil || !strings.HasPrefix(call.Call.StaticCallee().Name(), "Add") || !fieldAddrIs(call.Call.Args[0], cntFld) {
+			if !ok || call.Call.StaticCallee() == nil || !strings.HasPrefix(engine.ShortName(call.Call.StaticCallee()), "Add") || !fieldAddrIs(call.Call.Args[0], cntFld) {
 				continue
 			}
 			eqEdge := 0
@@ -463,16 +463,16 @@ func c18jail(c *Ctx) {
 			fn := cb.Fn.(*ssa.Function)
 			if fn.Synthetic != "" {
 				// bound method value b.loginWG.Done
-				if strings.Contains(fn.Name(), "Done") {
+				if strings.Contains(engine.ShortName(fn), "Done") {
 					done = true
 				}
 			}
 			for _, cs := range engine.Calls(fn) {
 				if sc := cs.Common().StaticCallee(); sc != nil {
-					if sc.Name() == "Done" {
+					if engine.ShortName(sc) == "Done" {
 						done = true
 					}
-					if strings.HasPrefix(sc.Name(), "Store") && len(cs.Common().Args) == 2 {
+					if strings.HasPrefix(engine.ShortName(sc), "Store") && len(cs.Common().Args) == 2 {
 						if k, ok := cs.Common().Args[1].(*ssa.Const); ok && k.Value != nil && k.Value.ExactString() == "0" {
 							reset = true
 						}
